@@ -500,6 +500,8 @@ type Clause struct {
 	Loop int    // for loop clauses
 	E    Expr
 	Text string
+	At    string   // source-line anchor for assert/assume
+	AtOrd int
 	Only string   // assumption tag (e.g. "ReaderProgress" for decreases ... assuming X)
 	Tags []string // properties served (overrides function-level)
 }
@@ -525,6 +527,7 @@ type FuncContract struct {
 	Modifies []string
 	Ghosts   []Clause // ghost NAME = expr evaluated at entry
 	Oracle   string   // Go boolean expression for replay
+	Dead     []string // source lines expected to be unreachable (defensive code behind an assumed contract)
 	Line     int
 }
 
@@ -540,7 +543,7 @@ type Contracts struct {
 var clauseKeywords = map[string]bool{
 	"spec": true, "rec": true, "func": true, "lib": true, "iface": true, "requires": true, "ensures": true,
 	"loop": true, "returns": true, "modifies": true, "ghost": true, "oracle": true,
-	"const": true, "pure": true, "trusted": true, "assert": true, "assume": true,
+	"const": true, "pure": true, "trusted": true, "assert": true, "assume": true, "deadcode": true,
 }
 
 func loadContracts(paths ...string) (*Contracts, error) {
@@ -707,7 +710,35 @@ func (cs *Contracts) parse(path, data string) error {
 				}
 			case "oracle":
 				cur.Oracle = body
+			case "deadcode":
+				cur.Dead = append(cur.Dead, strings.Trim(body, "\" "))
 			case "ghost":
+				if strings.HasPrefix(body, "at ") {
+					// ghost at "line text"[#k] NAME = expr : ghost variable set when execution reaches that line
+					b := strings.TrimSpace(body[3:])
+					end := strings.Index(b[1:], "\"")
+					if !strings.HasPrefix(b, "\"") || end < 0 {
+						return fail(fmt.Errorf("bad anchor"))
+					}
+					cl := Clause{Kind: "ghostat", At: b[1 : 1+end], AtOrd: 1, Text: body}
+					b = strings.TrimSpace(b[end+2:])
+					if strings.HasPrefix(b, "#") {
+						fmt.Sscanf(b, "#%d", &cl.AtOrd)
+						b = strings.TrimSpace(b[strings.IndexAny(b, " \t"):])
+					}
+					parts := strings.SplitN(b, "=", 2)
+					if len(parts) != 2 {
+						return fail(fmt.Errorf("bad ghost"))
+					}
+					cl.Name = strings.TrimSpace(parts[0])
+					e, err := parseExpr(parts[1])
+					if err != nil {
+						return fail(err)
+					}
+					cl.E = e
+					cur.Clauses = append(cur.Clauses, cl)
+					break
+				}
 				parts := strings.SplitN(body, "=", 2)
 				if len(parts) != 2 {
 					return fail(fmt.Errorf("bad ghost"))
@@ -720,6 +751,27 @@ func (cs *Contracts) parse(path, data string) error {
 			case "requires", "ensures", "assert", "assume":
 				cl := Clause{Kind: kw, Text: body}
 				b := body
+				if kw == "assert" || kw == "assume" {
+					// assert at "source line text"[#k] [name] expr
+					if !strings.HasPrefix(b, "at ") {
+						return fail(fmt.Errorf("%s needs an anchor: %s at \"line text\" expr", kw, kw))
+					}
+					b = strings.TrimSpace(b[3:])
+					if !strings.HasPrefix(b, "\"") {
+						return fail(fmt.Errorf("bad anchor"))
+					}
+					end := strings.Index(b[1:], "\"")
+					if end < 0 {
+						return fail(fmt.Errorf("bad anchor"))
+					}
+					cl.At = b[1 : 1+end]
+					b = strings.TrimSpace(b[end+2:])
+					cl.AtOrd = 1
+					if strings.HasPrefix(b, "#") {
+						fmt.Sscanf(b, "#%d", &cl.AtOrd)
+						b = strings.TrimSpace(b[strings.IndexAny(b, " \t"):])
+					}
+				}
 				// optional label and tags:  ensures [name C05 C09] expr
 				if strings.HasPrefix(b, "[") {
 					end := strings.Index(b, "]")
